@@ -213,7 +213,7 @@ func (ex *exampleValidator) validateExampleInResponse(resp *spec.Response, respo
 		if response.Schema != nil {
 			if example, ok := response.Examples["application/json"]; ok {
 				res.MergeAsWarnings(
-					newSchemaValidator(response.Schema, s.spec.Spec(), path+".examples", s.KnownFormats, s.schemaOptions).Validate(example),
+					validateValueAgainstSchema(response.Schema, s.spec.Spec(), path+".examples", s.KnownFormats, s.schemaOptions, example),
 				)
 			} else {
 				// TODO: validate other media types too
@@ -237,7 +237,7 @@ func (ex *exampleValidator) validateExampleValueSchemaAgainstSchema(path, in str
 
 	if schema.Example != nil {
 		res.MergeAsWarnings(
-			newSchemaValidator(schema, s.spec.Spec(), path+".example", s.KnownFormats, ex.schemaOptions).Validate(schema.Example),
+			validateValueAgainstSchema(schema, s.spec.Spec(), path+".example", s.KnownFormats, ex.schemaOptions, schema.Example),
 		)
 	}
 	if schema.Items != nil {
